@@ -136,4 +136,62 @@ def CTables.wf {np ns nt : Nat} (T : CTables np ns nt) : Bool :=
   (List.finRange nt).all (fun t => (List.finRange ns).all (fun j => (List.finRange ns).all (fun x =>
       T.perms (T.nsym (T.perms t j)) (T.perms t x) == T.perms (T.nsym j) x)))
 
+/-! ### `get_nsym_list_and_s2pp`: the tables handed to the compact routines are computed
+
+`harmonic/force_constants.py: get_nsym_list_and_s2pp(s2p_map, p2p_map, permutations)` ↦ `mkTables`:
+`s2pp[i] = p2p_map[s2p_map[i]]` and `nsym_list[i] = np.where(permutations[:, i] == s2p_map[i])[0][0]`
+(the FIRST pure translation that sends atom `i` to its primitive representative).  `p2p_map` is the
+dict `{p2s_map[ip]: ip}` (`structure/cells.py: Primitive._map_atomic_indices`); with an injective
+`p2s_map` (part of the certificate below) "last key wins" and "first match" coincide. -/
+
+/-- `np.where(permutations[:, i] == target)[0][0]`; `none` ↔ the Python raises `IndexError`. -/
+def firstTrans {ns nt : Nat} (perms : Fin nt → Fin ns → Fin ns) (i target : Fin ns) : Option (Fin nt) :=
+  (List.finRange nt).find? (fun t => perms t i == target)
+
+/-- `p2p_map[s]`; `none` ↔ `KeyError`. -/
+def p2pLookup {np ns : Nat} (p2s : Fin np → Fin ns) (s : Fin ns) : Option (Fin np) :=
+  (List.finRange np).find? (fun ip => p2s ip == s)
+
+/-- `get_nsym_list_and_s2pp` returns (raises neither `KeyError` nor `IndexError`). -/
+def tablesDefined {np ns nt : Nat} (p2s : Fin np → Fin ns) (s2p : Fin ns → Fin ns)
+    (perms : Fin nt → Fin ns → Fin ns) : Bool :=
+  (List.finRange ns).all fun i => (p2pLookup p2s (s2p i)).isSome && (firstTrans perms i (s2p i)).isSome
+
+/-- the tables `get_nsym_list_and_s2pp` computes from `s2p_map`, `p2s_map` and the table of pure
+translations (`Primitive.atomic_permutations`).  The defaults are never used when `tablesDefined`. -/
+def mkTables {np ns nt : Nat} (hnp : 0 < np) (hnt : 0 < nt) (p2s : Fin np → Fin ns) (s2p : Fin ns → Fin ns)
+    (perms : Fin nt → Fin ns → Fin ns) : CTables np ns nt :=
+  { p2s := p2s
+    s2pp := fun i => (p2pLookup p2s (s2p i)).getD ⟨0, hnp⟩
+    nsym := fun i => (firstTrans perms i (s2p i)).getD ⟨0, hnt⟩
+    perms := perms }
+
+/-- Executable certificate on the INPUTS of `get_nsym_list_and_s2pp`: the rows of `perms` form a group of
+permutations acting freely on the atoms, preserving the sublattice map `s2p`, and reaching every atom's
+representative; representatives are the primitive atoms.  (What `Primitive` promises; evaluated by the check
+on the implementation's own arrays.)  `transGroupCert_wf` derives `CTables.wf` of the computed tables. -/
+def transGroupCert {np ns nt : Nat} (p2s : Fin np → Fin ns) (s2p : Fin ns → Fin ns)
+    (perms : Fin nt → Fin ns → Fin ns) : Bool :=
+  -- every representative is a primitive atom
+  (List.finRange ns).all (fun i => (List.finRange np).any (fun ip => p2s ip == s2p i)) &&
+  -- primitive atoms represent themselves
+  (List.finRange np).all (fun ip => s2p (p2s ip) == p2s ip) &&
+  -- p2s is injective
+  (List.finRange np).all (fun a => (List.finRange np).all (fun b => (p2s a != p2s b) || a == b)) &&
+  -- the identity is among the translations
+  (List.finRange nt).any (fun e => (List.finRange ns).all (fun x => perms e x == x)) &&
+  -- the action is free: two translations that agree on one atom agree everywhere
+  (List.finRange nt).all (fun a => (List.finRange nt).all (fun b => (List.finRange ns).all (fun j =>
+    (perms a j != perms b j) || (List.finRange ns).all (fun x => perms a x == perms b x)))) &&
+  -- translations preserve the sublattice
+  (List.finRange nt).all (fun t => (List.finRange ns).all (fun i => s2p (perms t i) == s2p i)) &&
+  -- every translation is injective on the atoms
+  (List.finRange nt).all (fun t => (List.finRange ns).all (fun i => (List.finRange ns).all (fun j =>
+    (perms t i != perms t j) || i == j))) &&
+  -- closed under composition
+  (List.finRange nt).all (fun a => (List.finRange nt).all (fun b => (List.finRange nt).any (fun c =>
+    (List.finRange ns).all (fun x => perms c x == perms a (perms b x))))) &&
+  -- every atom is carried to its representative by some translation
+  (List.finRange ns).all (fun i => (List.finRange nt).any (fun t => perms t i == s2p i))
+
 end PhononModel
